@@ -152,6 +152,32 @@ Proof.
   cbn [length] in E1, E2, E3. rewrite E1, E2, E3. reflexivity.
 Qed.
 
+
+(* ELF build id in a little-endian dump: the three leading GUID fields are byte-swapped (the historical
+   Breakpad convention), the last eight bytes are kept *)
+Lemma be_enc_le_dec : forall l, all_in 1 l = true -> enc_uint BE (length l) (dec_uint LE l) = rev l.
+Proof. intros l H. unfold enc_uint, dec_uint. rewrite ule_enc_dec by exact H. reflexivity. Qed.
+
+Lemma debug_id_elf_le : forall bid g0 g1 g2 g3 g4 g5 g6 g7 tl, all_zero bid = false -> all_in 1 bid = true ->
+  firstn 16 (bid ++ repeat 0 16) = g0 :: g1 :: g2 :: g3 :: g4 :: g5 :: g6 :: g7 :: tl ->
+  read_debug_id LE (CvElf bid) = DbgUuid (g3 :: g2 :: g1 :: g0 :: g5 :: g4 :: g7 :: g6 :: tl) 0.
+Proof.
+  intros bid g0 g1 g2 g3 g4 g5 g6 g7 tl Hz Hin Hg. cbn [read_debug_id]. rewrite Hz, Hg.
+  assert (Hall : all_in 1 (g0 :: g1 :: g2 :: g3 :: g4 :: g5 :: g6 :: g7 :: tl) = true).
+  { rewrite <- Hg. clear -Hin.
+    assert (Hgen : forall n l, all_in 1 l = true -> all_in 1 (firstn n l) = true).
+    { induction n as [|n IHn]; intros l Hl; [reflexivity|]. destruct l as [|x l]; [reflexivity|].
+      cbn [firstn all_in] in *. apply andb_prop in Hl. destruct Hl as [Hx Hl]. rewrite Hx. cbn [andb]. apply IHn. exact Hl. }
+    apply Hgen. induction bid as [|x bid IH]; [reflexivity|]. cbn [app all_in] in *. apply andb_prop in Hin. destruct Hin as [Hx Hb].
+    rewrite Hx. cbn [andb]. apply IH. exact Hb. }
+  cbn [all_in] in Hall. bdestr.
+  unfold uuid_of_fields. cbn [firstn skipn].
+  pose proof (be_enc_le_dec [g0; g1; g2; g3] ltac:(cbn [all_in]; bsplit; try assumption; reflexivity)) as E1.
+  pose proof (be_enc_le_dec [g4; g5] ltac:(cbn [all_in]; bsplit; try assumption; reflexivity)) as E2.
+  pose proof (be_enc_le_dec [g6; g7] ltac:(cbn [all_in]; bsplit; try assumption; reflexivity)) as E3.
+  cbn [length rev app] in E1, E2, E3. rewrite E1, E2, E3. reflexivity.
+Qed.
+
 (* code identifiers are lower-case hexadecimal *)
 Definition lower_hex (c : Z) : bool := ((48 <=? c) && (c <=? 57)) || ((97 <=? c) && (c <=? 102)).
 Lemma hexdigit_lower : forall d, 0 <= d < 16 -> lower_hex (hexdigit false d) = true.
@@ -228,8 +254,11 @@ Lemma debug_id_spec :
   (forall e off s age f, read_debug_id e (CvPdb20 off s age f) = DbgPdb20 s age) /\
   (forall e bid, all_zero bid = true -> read_debug_id e (CvElf bid) = DbgNone) /\
   (forall bid, all_zero bid = false -> all_in 1 bid = true ->
-     read_debug_id BE (CvElf bid) = DbgUuid (firstn 16 (bid ++ repeat 0 16)) 0).
+     read_debug_id BE (CvElf bid) = DbgUuid (firstn 16 (bid ++ repeat 0 16)) 0) /\
+  (forall bid g0 g1 g2 g3 g4 g5 g6 g7 tl, all_zero bid = false -> all_in 1 bid = true ->
+     firstn 16 (bid ++ repeat 0 16) = g0 :: g1 :: g2 :: g3 :: g4 :: g5 :: g6 :: g7 :: tl ->
+     read_debug_id LE (CvElf bid) = DbgUuid (g3 :: g2 :: g1 :: g0 :: g5 :: g4 :: g7 :: g6 :: tl) 0).
 Proof.
   split; [exact debug_id_pdb70|]. split; [exact debug_id_pdb70_nil|]. split; [exact debug_id_pdb20|].
-  split; [exact debug_id_elf_zero|exact debug_id_elf_be].
+  split; [exact debug_id_elf_zero|]. split; [exact debug_id_elf_be|exact debug_id_elf_le].
 Qed.
